@@ -282,3 +282,51 @@ def refresh_complete(chk, P, rule="R-REFRESH", funcs=("hwloc_topology_refresh", 
                          "not reached with flags == 0x%x although its own flag is clear" % missing[0] if missing else "",
                          "reached with flags == 0x%x although its own flag is set" % extra[0] if extra else ""])))))
     return n
+
+
+def refresh_every_element(chk, P, rule="R-REFRESHALL"):
+    """the refresh-all functions validate EVERY element: explored with exactly one element present whose fields are all 0 (not yet
+    valid, no targets, no flags: every scalar field of the element that the function reads is seeded 0), the per-element refresher
+    must have been called on every path to the function's exit.  An element skipped under some condition keeps its cache invalid
+    after load()/refresh(); every reader then refreshes it itself, i.e. writes the shared topology (and an adopted read-only one)."""
+    import peval
+    n = 0
+    for fname, unit, per_elem, one in (("hwloc_internal_memattrs_refresh", "memattrs.c", "hwloc__imattr_refresh", {"topology->nr_memattrs": 1}),
+                                       ("hwloc_internal_distances_refresh", "distances.c", "hwloc_internal_distances_refresh_one", {"topology->first_dist": 1})):
+        f = P.need_func(fname, unit)
+        if not chk.need(any(True for _ in f.calls((per_elem,))), "%s: %s no longer calls %s" % (rule, fname, per_elem)):
+            continue
+        # the element variable: the local handed to the per-element refresher
+        elems = set()
+        for c in f.calls((per_elem,)):
+            for a in args(c):
+                a2 = strip(a)
+                if a2 is not None and a2["k"] == "Ref" and a2.get("dk") == "local":
+                    elems.add(a2["n"])
+        env = dict(one)
+        for x in f.walk():
+            if x["k"] == "Member" and x.get("arrow"):
+                b = strip(x["c"][0])
+                if b is not None and b["k"] == "Ref" and b["n"] in elems:
+                    t = f.type_of(x)
+                    if t and ("w" in t or t.get("ptr")):
+                        env.setdefault("%s->%s" % (b["n"], x["f"]), 0)
+        miss = []
+        nex = [0]
+        def obx(kind, nd, e, miss=miss, nex=nex, f=f):
+            nex[0] += 1
+            if not e.get("#" + per_elem):
+                miss.append(f.loc(nd) if nd is not None else f.name + ":end")
+        try:
+            peval.PathEval(P, f, env, is_effect=lambda *z: False, through_effects=True, observe_exit=obx, markers={per_elem}, exact_counters=True,
+                           call_values={per_elem: 0}, track=set(env) | set(v9["n"] for v9 in f.walk() if v9["k"] == "Var"), maxstates=50000).run()
+        except AnalysisBroken as ex:
+            chk.broke("%s: %s not evaluable (%s)" % (rule, fname, ex))
+            continue
+        n += 1
+        if not chk.need(nex[0] > 0, "%s: no exit of %s reached" % (rule, fname)):
+            continue
+        chk.inst(rule, f, "every-element:" + per_elem, not miss,
+                 "with one element whose fields are all 0 (cache not valid), every path through %s calls %s for it%s"
+                 % (fname, per_elem, "" if not miss else " -- but the exit at %s is reached without: that element stays invalid after load()/refresh() and every reader refreshes it itself (a write)" % miss[0]))
+    return n
